@@ -666,6 +666,18 @@ pub fn run(o: &Opts) -> i32 {
                     addj(format!("jsondeep{}-{}", n, k), format!("currency JSON with an expression nested {} deep", n), j, &mut names);
                 }
             }
+            // definitions that use a temperature scale (only JSON can: the definitions lexer has no such token) on top of
+            // databases that lack the scale's constants, or define them in another unit
+            for (i, (base, j)) in [
+                ("K !kelvin\n", r#"[{"name":"bodytemp","doc":null,"category":null,"type":"unit","expr":"37 degC"}]"#),
+                ("K !kelvin\nzerocelsius 273.15 K\n", r#"[{"name":"bodytemp","doc":null,"category":null,"type":"unit","expr":"37 degC"}]"#),
+                ("K !kelvin\nm !meter\nzerocelsius 273.15 m\n", r#"[{"name":"bodytemp","doc":null,"category":null,"type":"unit","expr":"37 degC"}]"#),
+                ("K !kelvin\n", r#"[{"name":"zerocelsius","doc":null,"category":null,"type":"unit","expr":"273.15 K"},{"name":"bodytemp","doc":null,"category":null,"type":"unit","expr":"37 degC"},{"name":"hot","doc":null,"category":null,"type":"unit","expr":"451 degF"}]"#),
+                ("K !kelvin\nzerofahrenheit 255 K\ndegfahrenheit 5|9 K\n", r#"[{"name":"warm","doc":null,"category":null,"type":"unit","expr":"98 °F + 1 K"},{"name":"odd","doc":null,"category":null,"type":"unit","expr":"3 K degF"}]"#),
+            ].iter().enumerate() {
+                write_json_scenario(&dir, &format!("jsondegree{}", i), base, j, "");
+                names.push((format!("jsondegree{}", i), format!("currency JSON {} on the definitions {:?}", j.chars().take(60).collect::<String>(), base)));
+            }
             let njm = if o.thorough { 40 } else { 6 };
             for i in 0..njm {
                 let mut es = entries.clone();
